@@ -64,6 +64,7 @@ type World struct {
 	inCheck bool
 	// ViaHTTP: the ledgers' controllers send their writes and reads through the real HTTP API (see httpctrl.go)
 	ViaHTTP  bool
+	V1Writes bool // with ViaHTTP: writes use the v1 routes whenever v1 can express them
 	router   http.Handler
 	APICalls int
 	// PreOpen: the first PreOpen concurrent writers of runWriters use a controller chain opened before the run
@@ -156,7 +157,7 @@ func (w *World) wrap(name string, c ledgercontroller.Controller) ledgercontrolle
 	if w.router == nil {
 		w.router = w.Env.Router()
 	}
-	return &httpCtrl{Controller: c, router: w.router, name: name, calls: &w.APICalls}
+	return &httpCtrl{Controller: c, router: w.router, name: name, calls: &w.APICalls, v1Writes: w.V1Writes}
 }
 
 func (w *World) harness(format string, args ...any) {
